@@ -32,6 +32,12 @@ class StdHooks(KernelHooks):
             return self.vector_call(it, elem, meth, node, args, this_cell)
         if name.startswith('std::allocator<'):
             return Opaque('allocator')
+        if name.split('<')[0] == 'std::swap' and len(args) == 2:
+            a, b = it.lval(args[0]), it.lval(args[1])
+            va, vb = a.value, b.value
+            it.write(a, vb, node)
+            it.write(b, va, node)
+            return None
         if name.startswith('std::is_sorted'):
             return NotImplemented
         return KernelHooks.external_call(self, it, name, node, args, this_cell)
